@@ -934,6 +934,9 @@ impl W3Exec {
             if b.bid_vol != b.ask_vol && b.bid_best != b.ask_best {
                 self.stats.probe("asymmetric_book_recorded");
             }
+            if levels >= 3 && (b.bid_levels[levels - 1].0 > 0 || b.ask_levels[levels - 1].0 > 0) {
+                self.stats.probe("deepest_level_populated");
+            }
             if levels >= 2 && (b.bid_levels[1].0 > 0 || b.ask_levels[1].0 > 0) {
                 self.stats.probe("level_beyond_first_populated");
             }
